@@ -76,6 +76,15 @@ theorem tail_macro_expansion (st : State) (hl : Live st) (F env : Nat) (xs : Lis
     evalLoop (F + 1) st env (.list xs pos) d = afterExpand F s1 env ast' d :=
   Proofs.EvalTail.tail_macro_expansion hl F env xs pos d ast' s1 h
 
+/-- **Any length.**  `TailStep d a b` is one tail transition of a loop running at depth `d` (one constructor per
+    law above, with exactly its premises; configurations are (fuel, state, scope, form)); `TailChain` is its
+    reflexive–transitive closure.  Along a chain of ANY length the loop activation that started the chain is the
+    one that finishes it: the result of the first configuration at depth `d` IS the result of the last one at
+    the same depth `d` — no `EVAL` frame is added, however many iterations the loop makes. -/
+theorem tail_chain_constant_depth (d : Nat) (a b : Cfg) (h : TailChain d a b) :
+    evalLoop a.fuel a.st a.env a.ast d = evalLoop b.fuel b.st b.env b.ast d :=
+  h.sameDepth
+
 /-- whereas every non-tail sub-evaluation is a recursive `EVAL` at depth `d + 1`: the elements of a call
     (`evalList`, also used by `do` for its non-last forms), the init forms of `let`, the condition of `if`,
     the value of `def` all go through `eval … (d + 1)` (shown here: an element's result is the loop's
